@@ -474,6 +474,25 @@ fn abacus_establish(c: &mut Ctx, m: &'static Merchant, inst: usize) {
         if let Ok(m2) = fixtures::merchant(c.seed, "m9") {
             variants.push(("merchant-key", est_challenge(m2, &fx.cid, cust, merch, &fx.proof.bytes, &fx.context, &mut rng)));
         }
+        if inst == 0 {
+            if let Ok(patoms) = parameter_atoms(m, usize::MAX) {
+                for (which, fpath, kind, orig) in patoms.iter().filter(|p| p.0 == "key") {
+                    let Some(alt) = alt_valid(*kind, orig, &mut rng) else { continue };
+                    let Ok(mx) = config_with_atom(m, which, fpath, &alt) else { continue };
+                    c.eval();
+                    c.distinct(&format!("abacus/EstablishProof/parameter/{}", fpath));
+                    c.count("abacus_parameter_atoms_replaced", 1);
+                    match est_challenge(mx, &fx.cid, cust, merch, &fx.proof.bytes, &fx.context, &mut rng) {
+                        Ok(ch) if ch == fx.challenge => c.violation(
+                            &format!("C12 challenge-unchanged level=zkabacus proof=EstablishProof parameter=key:{}", fpath),
+                            json!({"atom": fpath}),
+                        ),
+                        Ok(_) => {}
+                        Err(e) => c.inconclusive(&e),
+                    }
+                }
+            }
+        }
         for (what, r) in variants {
             c.eval();
             c.distinct(&format!("abacus/EstablishProof/public/{}", what));
@@ -490,6 +509,44 @@ fn abacus_establish(c: &mut Ctx, m: &'static Merchant, inst: usize) {
 fn pay_challenge(m: &'static Merchant, amt: i64, nonce: &[u8], proof: &[u8], ctx: &[u8], rng: &mut (impl RngCore + rand_core::CryptoRng)) -> Result<(Scalar, bool), String> {
     let (o, _) = crate::shadow::submit_pay(m, rng, amount(amt)?, nonce, proof, ctx, |_u| ())?;
     Ok((o.challenge, o.accepted.is_some()))
+}
+
+/// merchant configuration equal to `m` except for one atom of the signing key pair's public half
+/// or of the range parameters (the secret half is untouched; decoding does not cross-check them)
+fn config_with_atom(m: &Merchant, which: &str, fpath: &str, new: &[u8]) -> Result<&'static Merchant, String> {
+    let kp_bytes = {
+        let mut t = trace(m.cfg.signing_keypair())?;
+        if which == "key" {
+            t.fset(fpath, new)?;
+        }
+        t.bytes
+    };
+    let range_bytes = {
+        let mut t = trace(m.cfg.range_constraint_parameters())?;
+        if which == "range" {
+            t.fset(fpath, new)?;
+        }
+        t.bytes
+    };
+    let cfg = zk::merchant::Config::from_parts(dec(&kp_bytes)?, dec(&enc(m.cfg.revocation_commitment_parameters()))?, dec(&range_bytes)?);
+    let f = fixtures::from_config(&format!("{}-{}-{}", m.label, which, fpath), cfg)?;
+    Ok(Box::leak(Box::new(f)))
+}
+
+/// (which, field path, kind, original bytes) of the parameter atoms the merchant feeds to its challenges
+fn parameter_atoms(m: &Merchant, range_stride: usize) -> Result<Vec<(String, String, Kind, Vec<u8>)>, String> {
+    let mut v = vec![];
+    let t = trace(m.cfg.signing_keypair())?;
+    for a in t.atoms.iter().filter(|a| a.fpath.starts_with("pk/") && matches!(a.kind, Kind::G1 | Kind::G2)) {
+        v.push(("key".to_string(), a.fpath.clone(), a.kind, t.atom_bytes(a).to_vec()));
+    }
+    let t = trace(m.cfg.range_constraint_parameters())?;
+    for (i, a) in t.atoms.iter().filter(|a| matches!(a.kind, Kind::G1 | Kind::G2)).enumerate() {
+        if i % range_stride == 0 || a.fpath.starts_with("public_key") {
+            v.push(("range".to_string(), a.fpath.clone(), a.kind, t.atom_bytes(a).to_vec()));
+        }
+    }
+    Ok(v)
 }
 
 fn abacus_pay(c: &mut Ctx, m: &'static Merchant, inst: usize) {
@@ -604,6 +661,49 @@ fn abacus_pay(c: &mut Ctx, m: &'static Merchant, inst: usize) {
             }
         });
         lo += chunk;
+    }
+    // every element of the merchant key and (quick: every 8th, thorough: every) element of the range
+    // parameters: a configuration differing in that one element must derive another challenge
+    let stride = c.tier.pick(8usize, 1);
+    let patoms = match parameter_atoms(m, stride) {
+        Ok(v) => v,
+        Err(e) => return c.inconclusive(&e),
+    };
+    if inst == 0 {
+        let pchunk = 6usize;
+        let mut lo = 0usize;
+        while lo < patoms.len() {
+            let name = format!("abacus/pay/{}/parameter-atoms/{}", inst, lo);
+            c.case(&name, |c| {
+                let mut rng = c.rng(&name);
+                let (base, _) = match pay_challenge(m, amt, &nonce, &t1.bytes, &ctx1, &mut rng) {
+                    Ok(x) => x,
+                    Err(e) => return c.inconclusive(&e),
+                };
+                for (which, fpath, kind, orig) in patoms.iter().skip(lo).take(pchunk) {
+                    let Some(alt) = alt_valid(*kind, orig, &mut rng) else { continue };
+                    let mx = match config_with_atom(m, which, fpath, &alt) {
+                        Ok(x) => x,
+                        Err(e) => {
+                            c.inconclusive(&e);
+                            continue;
+                        }
+                    };
+                    c.eval();
+                    c.distinct(&format!("abacus/PayProof/parameter/{}/{}", which, fpath));
+                    c.count("abacus_parameter_atoms_replaced", 1);
+                    match pay_challenge(mx, amt, &nonce, &t1.bytes, &ctx1, &mut rng) {
+                        Ok((ch, _)) if ch == base => c.violation(
+                            &format!("C12 challenge-unchanged level=zkabacus proof=PayProof parameter={}:{}", which, fpath),
+                            json!({"which": which, "atom": fpath}),
+                        ),
+                        Ok(_) => {}
+                        Err(e) => c.inconclusive(&e),
+                    }
+                }
+            });
+            lo += pchunk;
+        }
     }
 }
 
